@@ -30,6 +30,22 @@ def lib_verdicts(rec, text, inp):
     return out
 
 
+_TREE_ALGOS = None
+
+
+def tree_algorithm_countries():
+    """Countries for which the tree registers a default national algorithm (configuration discovery): a country that
+    gains an algorithm later is no longer 'without a national algorithm'; without a reference it is simply not judged."""
+    global _TREE_ALGOS
+    if _TREE_ALGOS is None:
+        try:
+            from schwifty.checksum import algorithms
+            _TREE_ALGOS = {k.split(":", 1)[0] for k in algorithms if k.endswith(":default")}
+        except Exception:  # noqa: BLE001
+            _TREE_ALGOS = set()
+    return _TREE_ALGOS
+
+
 def check_listed(rec: Rec, cc: str, bban: str, origin: str):
     """Relations for an ISO-valid IBAN of a listed country. Returns the reference verdict."""
     from ..lib import IBAN, SchwiftyException, frame_of
@@ -79,7 +95,7 @@ def check_unlisted(rec: Rec, text: str, origin: str):
     if (on or von) and not off:
         rec.fail(f"not_monotonic|{cc if cc in oracle().table else '??'}", "national_only_rejects", inp,
                  "accepted with flag => accepted without", {"off": off, "on": on, "validate_on": von})
-    if cc not in onat.LISTED and cc != "DE":
+    if cc not in onat.LISTED and cc != "DE" and cc not in tree_algorithm_countries():
         if on != off or von != off:
             rec.fail(f"unlisted_affected|{cc if cc in oracle().table else '??'}", "unlisted_unaffected", inp, off,
                      {"on": on, "validate_on": von})
